@@ -231,7 +231,7 @@ def _has_quant(e, _cache={}):
     return False
 
 
-def discharge(obl, timeout_ms=10000, want_model=True, use_cvc5=True):
+def discharge(obl, timeout_ms=10000, want_model=True, use_cvc5=True, seed=0):
     """-> Result.  status: discharged | failed (counter-model) | unknown | canary-ok | canary-vacuous"""
     t0 = time.time()
     hyps = list(obl.hyps)
@@ -248,6 +248,13 @@ def discharge(obl, timeout_ms=10000, want_model=True, use_cvc5=True):
     def run(tactic=None, tmo=timeout_ms):
         s = z3.Solver() if tactic is None else z3.Then(*tactic).solver() if isinstance(tactic, (list, tuple)) else z3.Tactic(tactic).solver()
         s.set("timeout", int(tmo))
+        if seed:
+            # a retry runs under another random seed: quantifier instantiation that went astray once usually does not under a different seed, so
+            # several short attempts are worth more than one long one
+            try:
+                s.set("random_seed", int(seed))
+            except z3.Z3Exception:
+                pass
         s.add(*ax)
         s.add(*fs)
         r = s.check()
